@@ -41,6 +41,11 @@ pub fn run_entry(entry: &str, text: &str, fen: &str, stats: &mut Stats) -> Check
         "fen_board" => match Board::from_fen(text) {
             Ok(b) => {
                 accepted = true;
+                ensure!(Board::from_str(text).as_ref() == Ok(&b), "Board::from_str differs from from_fen on {:?}", text);
+                match MoveChain::from_fen(text) {
+                    Ok(c) => ensure!(c.last() == &b && c.len() == 0, "MoveChain::from_fen differs from Board::from_fen on {:?}", text),
+                    Err(e) => fail!("MoveChain::from_fen refused {:?} which Board::from_fen accepts: {}", text, e),
+                }
                 let t = b.to_string();
                 match Board::from_fen(&t) {
                     Ok(b2) => ensure!(b2 == b, "Board: parse(format(v)) != v for {:?}", text),
